@@ -449,15 +449,15 @@ func init() {
 	}
 }
 
-
 type umWorld struct {
-	c       UCase
-	defs    []errdef.Definition
-	res     resolver.Resolver
-	custom  []keyEntry
-	targets []reflect.Type
-	raw     bool
-	sents   []error // sentinel pool for printing restored causes (default: umSentinels)
+	c          UCase
+	defs       []errdef.Definition
+	res        resolver.Resolver
+	custom     []keyEntry
+	targets    []reflect.Type
+	raw        bool
+	sents      []error           // sentinel pool for printing restored causes (default: umSentinels)
+	customBase []errdef.FieldKey // caller-owned slice behind WithCustomFields (shared with the decoy)
 }
 
 func buildUM(c UCase) *umWorld {
@@ -511,7 +511,14 @@ func (w *umWorld) options() []unmarshaler.Option {
 		ck = append(ck, keyPool[ki].Key)
 	}
 	if len(ck) > 0 {
-		opts = append(opts, unmarshaler.WithCustomFields(ck...))
+		// the keys are handed over as one caller-owned slice with spare capacity plus a second
+		// option; the same slice is later given to a decoy unmarshaler with a different extra
+		// key (decoyOptions): neither unmarshaler may see the other's key
+		if w.customBase == nil {
+			w.customBase = make([]errdef.FieldKey, len(ck)-1, len(ck)+3)
+			copy(w.customBase, ck[:len(ck)-1])
+		}
+		opts = append(opts, unmarshaler.WithCustomFields(w.customBase...), unmarshaler.WithCustomFields(ck[len(ck)-1]))
 	}
 	if w.c.Cfg.Builtin {
 		opts = append(opts, unmarshaler.WithBuiltinFields())
@@ -524,6 +531,16 @@ func (w *umWorld) options() []unmarshaler.Option {
 		opts = append(opts, unmarshaler.WithSentinelErrors(ss...))
 	}
 	return opts
+}
+
+var decoyKey = func() errdef.FieldKey { c, _ := errdef.DefineField[string]("zz"); return c.Key() }()
+
+// decoyOptions: a second unmarshaler configured from the same caller-owned key slice
+func (w *umWorld) decoyOptions() []unmarshaler.Option {
+	if w.customBase == nil {
+		return nil
+	}
+	return []unmarshaler.Option{unmarshaler.WithCustomFields(w.customBase...), unmarshaler.WithCustomFields(decoyKey)}
 }
 
 func mkFrames(n int) []errdef.Frame {
